@@ -78,7 +78,7 @@ theorem pollHead_result (sh : Shared) (r : MRegs) (k : Poll) : (pollHead sh r k)
   unfold pollHead; split
   · rfl
   · exact pollExit_result sh r k false
-theorem stepMYield_result (sh : Shared) (r : MRegs) : (stepMYield sh r).1.result = sh.result := by
+theorem stepMYield_result (cfg : Cfg) (sh : Shared) (r : MRegs) : (stepMYield cfg sh r).1.result = sh.result := by
   unfold stepMYield drainEnter; (repeat' split) <;> rfl
 theorem drainReturn_result (sh : Shared) (r : MRegs) (b : Bool) : (drainReturn sh r b).1.result = sh.result := by
   unfold drainReturn; (repeat' split) <;> rfl
@@ -86,6 +86,8 @@ theorem shutdownReturn_result (sh : Shared) (r : MRegs) : (shutdownReturn sh r).
   unfold shutdownReturn; (repeat' split) <;> rfl
 theorem dtorReturn_result (sh : Shared) (r : MRegs) : (dtorReturn sh r).1.result = sh.result := by
   unfold dtorReturn; rfl
+theorem dtorEarly_result (sh : Shared) (r : MRegs) : (dtorEarly sh r).1.result = sh.result := by
+  unfold dtorEarly; split <;> simp [dtorReturn_result]
 
 /-- a step that changes the outcome of submission `id` is a step of an enqueue call, for one of the stated reasons -/
 theorem trans_result (cfg : Cfg) (sh : Shared) (n t : Nat) (th : Thread) (alt : Nat) (id : Nat)
@@ -102,7 +104,7 @@ theorem trans_result (cfg : Cfg) (sh : Shared) (n t : Nat) (th : Thread) (alt : 
     | _ =>
       exfalso; apply h
       simp only [transM] <;> (repeat' split) <;>
-      simp [pollExit_result, pollHead_result, stepMYield_result, drainReturn_result, shutdownReturn_result, dtorReturn_result]
+      simp [pollExit_result, pollHead_result, stepMYield_result, drainReturn_result, shutdownReturn_result, dtorReturn_result, dtorEarly_result]
   | sub x =>
     simp only [trans] at h ⊢
     cases x with
@@ -127,6 +129,7 @@ theorem trans_result (cfg : Cfg) (sh : Shared) (n t : Nat) (th : Thread) (alt : 
     | lock => exfalso; apply h; simp only [transW]; split <;> simp [afterWait_result]
     | unlockTask tid => exfalso; apply h; simp only [transW, beginTask]; split <;> rfl
     | bYield tid sc => exfalso; apply h; simp only [transW]; split <;> simp [(bodyEnd_result cfg sh tid).1]
+    | cfgUnlock tid again => exfalso; apply h; simp only [transW, taskDone]; split <;> rfl
     | _ => exfalso; apply h; simp [transW, beginTask, taskDone]
 
 end Iora.ThreadPool
